@@ -1,6 +1,9 @@
 pub mod arenaconc;
 pub mod capture;
 pub mod normalize;
+pub mod pred;
+#[rustfmt::skip]
+pub mod pred_table;
 pub mod prog;
 pub mod receiver;
 pub mod values;
@@ -46,6 +49,7 @@ pub fn by_name(name: &str) -> Option<Box<dyn Suite>> {
         "prog" => Box::new(prog::Prog),
         "capture" => Box::new(capture::Capture),
         "arenaconc" => Box::new(arenaconc::ArenaConc),
+        "pred" => Box::new(pred::Pred),
         _ => return None,
     })
 }
